@@ -76,9 +76,18 @@ def leaf(ctx, path, kind, shape, batch=None):
     elif kind == "pos":  # strictly positive
         t = _randint(ctx, name, full, 1, 4)
     elif kind == "psd":  # B B^T + n I : positive definite with integer entries
+        # (re-drawn until every member has well separated eigenvalues: a repeated eigenvalue - e.g. 6 I - makes Krylov methods
+        # stop early by design, which is exercised by the dedicated "psd_rep" leaves and not by an accident of the seed)
         n = shape[-1]
-        b = _randint(ctx, name, full, -2, 2)
-        t = b @ b.mT + n * torch.eye(n, dtype=ctx.dtype)
+        for attempt in range(50):
+            b = _randint(ctx, name if attempt == 0 else f"{name}#{attempt}", full, -2, 2)
+            t = b @ b.mT + n * torch.eye(n, dtype=ctx.dtype)
+            ev = torch.linalg.eigvalsh(t.double())
+            if n == 1 or bool(((ev[..., 1:] - ev[..., :-1]) > 0.05 * ev[..., -1:]).all()):
+                break
+    elif kind == "psd_rep":  # c I: positive definite with one repeated eigenvalue
+        n = shape[-1]
+        t = _randint(ctx, name, tuple(batch) + (1, 1), 2, 6) * torch.eye(n, dtype=ctx.dtype)
     elif kind == "tril" or kind == "triu":
         n = shape[-1]
         t = _randint(ctx, name, full, -2, 2)
@@ -95,7 +104,7 @@ def leaf(ctx, path, kind, shape, batch=None):
         t = torch.randn(full, generator=ctx.gen(name), dtype=torch.float64).to(ctx.dtype)
     else:
         raise ValueError(kind)
-    if ctx.values == "real" and kind in ("int", "pos", "psd", "tril", "triu", "toep_psd"):
+    if ctx.values == "real" and kind in ("int", "pos", "psd", "tril", "triu", "toep_psd"):  # (psd_rep stays exactly c I)
         # smooth perturbation keeps the structural class (psd / triangular / positive)
         pert = 0.25 * torch.rand(full, generator=ctx.gen(name + "r"), dtype=torch.float64).to(ctx.dtype)
         if kind == "psd":
@@ -231,7 +240,7 @@ def build(term, ctx, path="r", batch=None):
         n, m = kw["n"], kw.get("m", kw["n"])
         A = leaf(ctx, path, kind, (n, m), batch)
         tri = {"tril": "lower", "triu": "upper"}.get(kind)
-        return Built(O.DenseLinearOperator(A), A, term, psd=kind == "psd", tri=tri)
+        return Built(O.DenseLinearOperator(A), A, term, psd=kind in ("psd", "psd_rep"), tri=tri)
     if head == "User":
         A = leaf(ctx, path, kw.get("kind", "int"), (kw["n"], kw.get("m", kw["n"])), batch)
         return Built(UserOp(A), A, term, psd=kw.get("kind") == "psd")
@@ -488,6 +497,10 @@ def catalogue(n=3, include_rect=True):
         "KronAddedKronDiagConst": ["KronAddedDiag", {}, ["Kron", {}, D(2, kind="psd"), D(n, kind="psd")],
                                    ["KronDiag", {}, ["ConstDiag", {"n": 2}], ["ConstDiag", {"n": n}]]],
         "SumKron": ["SumKron", {}, ["Kron", {}, D(2, kind="psd"), D(n, kind="psd")], ["Kron", {}, D(2, kind="psd"), D(n, kind="psd")]],
+        # a Kronecker factor with a repeated eigenvalue (c I): the large-matrix paths build on Lanczos decompositions of the factors
+        "SumKronRep": ["SumKron", {}, ["Kron", {}, D(2, kind="psd"), D(n, kind="psd")], ["Kron", {}, D(2, kind="psd_rep"), D(n, kind="psd")]],
+        "KronRepAddedKronDiagConst": ["KronAddedDiag", {}, ["Kron", {}, D(2, kind="psd_rep"), D(n, kind="psd")],
+                                      ["KronDiag", {}, ["ConstDiag", {"n": 2}], ["ConstDiag", {"n": n}]]],
         "LowRankRootAddedDiag": ["LowRankRootAddedDiag", {}, ["LowRankRoot", {}, D(n, 2)], ["Diag", {"n": n}]],
         "LowRankRootAddedConstDiag": ["LowRankRootAddedDiag", {}, ["LowRankRoot", {}, D(n, 2)], ["ConstDiag", {"n": n}]],
         "Sum": ["Sum", {}, D(n), ["Toeplitz", {"n": n}]], "Sum3": ["Sum", {}, D(n), D(n), ["Diag", {"n": n}]],
